@@ -58,6 +58,7 @@ PROBES = [
     ("probe:arg-name-literal", "from typing import Callable\nfrom mypy_extensions import Arg\ndef a(f: Callable[[Arg(int, 0)], int]) -> None: ...\n", [(3, 12)]),
     ("probe:one-constraint", "type B[T: (int,)] = list[T]\nb: B[str]\n", [(3, 12)]),
     ("probe:raise-semicolon", "def f() -> None:\n    try:\n        pass\n    except Exception:\n        raise ;\n", [(3, 12)]),
+    ("probe:elif-unreachable", "# mypy: warn-unreachable\nx: int = 0\nif isinstance(x, int):\n    pass\nelif x:\n    pass\n", [(3, 12)]),
     ("probe:star-index-310", "def f(*args: *tuple[int, ...]) -> None: pass\n", [(3, 10), (3, 11)]),
 ]
 
@@ -509,6 +510,8 @@ def _start_mechanisms(line: str, a, b) -> list[str] | None:
         return ["except-as-name-column"]
     if line[max(0, hi - 2):hi] == "**":
         return ["mapping-pattern-rest-column"]
+    if re.match(r"^elif\s+$", between) and not line[:lo].strip():
+        return ["elif-statement-start-column"]
     m = re.match(r"^(.*?)\b(and|or)\b[\s(]*$", between, re.S)
     if m:
         head = m.group(1)
@@ -558,6 +561,7 @@ EXPLAIN = {
     "mapping-pattern-rest-column": "`**rest` of a mapping pattern: pattern vs name",
     "quoted-annotation-end-position": "a string-quoted type: the default front end measures the end inside the string",
     "non-ascii-column-units": "the line contains non-ASCII characters before the position (bytes vs characters)",
+    "elif-statement-start-column": "the statement of an `elif` branch starts at the keyword (default) vs at its condition (native)",
     "unary-operator-in-annotation-span": "`x: + 2`: the default front end points at the operand, the native one at the unary expression",
     "chained-boolean-operation-inner-span": "`a and b and c`: the default front end gives the nested `b and c` the span of the whole chain, the native one its own",
 }
